@@ -319,8 +319,30 @@ fn with_companions(text: &str) -> Option<String> {
     Some(format!("query XCompanionA {{ ...{} }} {} query XCompanionZ {{{} }}", names[0], text, all))
 }
 
+/// every seventh enumerated document with several definitions also runs with its definitions in reverse order, and every
+/// seventh with every selection set, argument list and variable list reversed (what is defined before what it uses, what comes
+/// first among siblings) - judged against the model like any other document
+fn reordered(text: &str) -> Vec<String> {
+    let n = COMPANION.load(std::sync::atomic::Ordering::Relaxed);
+    if text.contains("XCompanion") || (n % 7 != 5 && n % 7 != 6) { return vec![]; }
+    let doc = match gen::parse_doc(text) { Some(d) => d, None => return vec![] };
+    let d2 = if n % 7 == 5 {
+        if doc.definitions.len() < 2 { return vec![]; }
+        crate::rewrite::reverse_definitions(&doc)
+    } else {
+        crate::rewrite::reverse_variables(&crate::rewrite::reverse_arguments(&crate::rewrite::reverse_selections(&doc)))
+    };
+    match crate::rewrite::reparse(&d2) { Some(_) => { let t = format!("{}", d2); if t == text { vec![] } else { vec![t] } }, None => vec![] }
+}
+
 pub fn rules_case(si: &gen::SchemaInfo, text: &str, rules: &[&str], tmpdir: &str, out: &mut Out) {
-    if let Some(t) = with_companions(text) { rules_case(si, &t, rules, tmpdir, out); }
+    if !text.contains("XReordered") {
+        if let Some(t) = with_companions(text) { rules_case(si, &t, rules, tmpdir, out); }
+        for t in reordered(text) {
+            // a marker comment keeps the variant from being reordered again
+            rules_case(si, &format!("# XReordered\n{}", t), rules, tmpdir, out);
+        }
+    }
     if full_mode(si, text, tmpdir, json!({"family": "rule-enumerator"}), out) { return; }
     let doc = match gen::parse_doc(text) { Some(d) => d, None => return };
     let cyclic = is_cyclic(&doc);
